@@ -563,7 +563,23 @@ func c20Blank(w *fw.Worker, i int, r *fw.Rand, seq string) {
 		// an installed watching inner's later updates are applied, whatever context SetSource was called with
 		if watcher != nil && !(doneForwarded && !withOther) {
 			ul := c20Layer(r, c, native, leaves)
-			if err := watcher.report(ul, true, nil); err != nil {
+			repDone := make(chan error, 1)
+			go func() { repDone <- watcher.report(ul, true, nil) }()
+			var err error
+			select {
+			case err = <-repDone:
+			case <-time.After(8 * time.Second):
+				// the report is stuck: either the monitor exited (Done was forwarded although a watcher owns the slot) or unknown
+				select {
+				case <-done:
+					w.Violation(i, "blank-done-forwarded-with-watching-inner", fmt.Sprintf("after step %d (%c): the monitor exited although a watching inner source owns the slot; its update can never be delivered", k, op), desc)
+				default:
+					w.Inconclusive(i, "watching inner's update did not return; monitor still running")
+				}
+				cancel()
+				return
+			}
+			if err != nil {
 				w.Violation(i, "watching-inner-update-lost", fmt.Sprintf("after step %d: update from the watching inner set through the Blank failed: %v", k, err), desc)
 				return
 			}
